@@ -173,9 +173,23 @@ def main(tier: str) -> int:
         cfg = cfg.replace(f' Rule <- "{rule}"', f' Rule = "{rule}"')
         return job, tlc.run("PyLookup", cfg, workers=(1 if dump else 4), timeout=1200), dump
 
+    # soundness of the quotient: the concrete-key model refines PyLookup (TLC checks the refinement mapping, sizes 1..3/4, Size+2 keys)
+    def refine_job(job):
+        size, rule = job
+        keys = ", ".join(str(k) for k in (range(0, size + 2) if rule == "prefix" else range(1, size + 3)))
+        text = f"---- MODULE MCKeys ----\nEXTENDS PyLookupKeys\nKS == {{{keys}}}\n====\n"
+        cfg = f'SPECIFICATION Spec\nCONSTANTS Size = {size} Rule = "{rule}" Keys <- KS\nINVARIANT AllResolve\nPROPERTY Refines\nCHECK_DEADLOCK FALSE\n'
+        return job, tlc.run("MCKeys", cfg, module_text=text, workers=2, timeout=900)
+
     t0 = time.time()
     with ThreadPoolExecutor(6) as ex:
         model = list(ex.map(tlc_job, jobs))
+        refinements = list(ex.map(refine_job, [(s_, r_) for s_ in (range(1, 4) if tier == "quick" else range(1, 5)) for r_ in RULES]))
+    ref_states = 0
+    for (size, rule), rr in refinements:
+        if rr.violated or not rr.ok:
+            env.machinery_failure(f"C05: PyLookupKeys does not refine PyLookup (size {size}, {rule}): {rr.violated or rr.errors[:2]} -- the quotient model is unsound")
+        ref_states += rr.distinct
     tlc_wall = time.time() - t0
     states = trans = 0
     table = {}
@@ -251,7 +265,7 @@ def main(tier: str) -> int:
     return run.finish({
         "states": states, "transitions": trans, "traces_validated_against_impl": real_transitions, "end_to_end_histories": e2e,
         "samples": samples, "exhaustive": True, "per_table": table, "long_history_steps": steps,
-        "tlc_wall_s": round(tlc_wall, 1),
-        "explanation": "TLC closes PyLookup for every size/rule (closure under every next key = all histories); the same graph is walked on real "
+        "tlc_wall_s": round(tlc_wall, 1), "quotient_refinement_states": ref_states,
+        "explanation": "spec/PyLookupKeys.tla (concrete keys) refines spec/PyLookup.tla (index-canonical quotient): checked by TLC as a refinement mapping; TLC closes PyLookup for every size/rule (closure under every next key = all histories); the same graph is walked on real "
                        "LookupEncoder/LookupDecoder objects; traces_validated_against_impl counts real transitions, each judged by the table contract",
     })
